@@ -4,60 +4,74 @@ From SB3V Require Import Lib.Tactics Gen.Frag_callbacks Model.Callbacks.
 Local Open Scope Z_scope.
 
 (* ------------------------------------------------------------------ fragments vs model *)
+(* proved by unfolding + lia / case analysis, so that harmless rewrites of the source (operand order of a
+   commutative operator, 0 == x for x == 0, ...) still check while a changed comparison or offset does not *)
+
+Ltac frag :=
+  intros;
+  repeat match goal with |- _ /\ _ => split end;
+  unfold cb_on_step_counters, cb_training_start_nt, cblist_combine, checkpoint_cond, eval_cond, eval_better,
+         eval_after_combine, everyn_cond, everyn_update, everyn_init_last, maxep_total, maxep_count, maxep_continue,
+         onpol_rollout_guard, onpol_count, onpol_nsteps_inc, onpol_learn_guard, offpol_count, offpol_episode_inc,
+         offpol_learn_guard, cb_collect_more_step, cb_collect_more_episode, setup_learn_counters,
+         checkpoint_fires, eval_fires, better, everyn_fires, more, setup, base_step, base_ts;
+  cbn [b_calls b_nt fst snd];
+  try reflexivity;
+  try (repeat match goal with |- (_, _) = (_, _) => f_equal end; lia).
 
 Lemma frag_on_step_counters b nt :
   cb_on_step_counters (b_calls b) nt = (b_calls (base_step nt b), b_nt (base_step nt b)).
-Proof. reflexivity. Qed.
+Proof. frag. Qed.
 
 Lemma frag_training_start_nt b nt : cb_training_start_nt nt = b_nt (base_ts nt b).
-Proof. reflexivity. Qed.
+Proof. frag. Qed.
 
 Lemma frag_cblist_combine r acc : cblist_combine r acc = (r && acc)%bool.
-Proof. reflexivity. Qed.
+Proof. unfold cblist_combine. destruct r, acc; reflexivity. Qed.
 
 Lemma frag_checkpoint_cond c f : checkpoint_cond c f = checkpoint_fires c f.
-Proof. reflexivity. Qed.
+Proof. frag. Qed.
 
 Lemma frag_eval_cond c f : eval_cond c f = eval_fires c f.
-Proof. reflexivity. Qed.
+Proof. frag. Qed.
 
 Lemma frag_eval_better m b : eval_better m b = better m (Some b).
-Proof. reflexivity. Qed.
+Proof. frag. Qed.
 
 Lemma frag_eval_after_combine a r : eval_after_combine a r = (if a then r else false).
-Proof. destruct a; reflexivity. Qed.
+Proof. unfold eval_after_combine. destruct a, r; reflexivity. Qed.
 
 Lemma frag_everyn_cond nt last n : everyn_cond nt last n = everyn_fires nt last n.
-Proof. reflexivity. Qed.
+Proof. frag. Qed.
 
 Lemma frag_everyn_update nt : everyn_update nt = nt.
-Proof. reflexivity. Qed.
+Proof. frag. Qed.
 
 Lemma frag_everyn_init : everyn_init_last = 0.
-Proof. reflexivity. Qed.
+Proof. frag. Qed.
 
 Lemma frag_maxep m ne neps nd :
   maxep_total m ne = m * ne /\ maxep_count neps nd = neps + nd /\ maxep_continue neps (m * ne) = (neps <? m * ne).
-Proof. repeat split. Qed.
+Proof. frag. Qed.
 
 Lemma frag_rollout_guards steps eps n :
   onpol_rollout_guard steps n = more (OnPol n) steps eps /\
   cb_collect_more_step steps n = more (OffStep n) steps eps /\
   cb_collect_more_episode eps n = more (OffEpis n) steps eps.
-Proof. repeat split. Qed.
+Proof. frag. Qed.
 
 Lemma frag_counts nt ne steps eps :
   onpol_count nt ne = nt + ne /\ onpol_nsteps_inc steps = steps + 1 /\
   offpol_count nt ne steps = (nt + ne, steps + 1) /\ offpol_episode_inc eps = eps + 1.
-Proof. repeat split. Qed.
+Proof. frag. Qed.
 
 Lemma frag_learn_guards nt total :
   onpol_learn_guard nt total = (nt <? total) /\ offpol_learn_guard nt total = (nt <? total).
-Proof. split; reflexivity. Qed.
+Proof. frag. Qed.
 
 Lemma frag_setup reset nt ep total :
   let '(nt', _, total') := setup_learn_counters reset nt ep total in (nt', total') = setup reset nt total.
-Proof. destruct reset; reflexivity. Qed.
+Proof. destruct reset; frag. Qed.
 
 (* ------------------------------------------------------------------ unfolding lemmas for dispatch *)
 
@@ -178,10 +192,6 @@ Qed.
 Lemma good_steps_true ne nt st l nt' st' :
   good_steps ne nt st l nt' st' -> Forall (fun x => snd x = true) l.
 Proof. induction 1; repeat constructor; auto. Qed.
-
-Lemma body_afo ne t nt st evs stopped nt' st' :
-  body ne nt st evs stopped nt' st' -> after_false_only t (evs ++ t) -> True.
-Proof. auto. Qed.
 
 Lemma body_after_false ne nt st evs stopped nt' st' :
   body ne nt st evs stopped nt' st' -> after_false_only [(TE, true)] (evs ++ [(TE, true)]).
@@ -510,7 +520,7 @@ Proof.
   cbn [dispatch]. repeat split.
   - intros ->. reflexivity.
   - intros ->. reflexivity.
-  - intros e [->|[->|->]]; reflexivity.
+  - intros e [E | [E | E]]; subst e; reflexivity.
 Qed.
 
 (* timesteps nt+ne, nt+2ne, ..., nt+k*ne *)
